@@ -472,3 +472,24 @@ def gen_config_sc(rng):
     order = ["N%d" % i for i in range(len(nodes))] + ["E%d" % i for i in range(len(edges))]
     rng.shuffle(order)
     return dict(model="factory", T=rng.choice([15, 25, 40]), nodes=nodes, edges=edges, connects=connects, order=order)
+
+
+def monitor_text(cfg, lines):
+    """input for the verified conservation monitor (coq/theories/Traces/Conserve.v): the item-movement
+    events of a canonical output; gets carry the pulling node"""
+    out = ["CASE monitor"]
+    for i, e in enumerate(cfg["edges"]):
+        out.append("ESRC %d %d" % (i, e["src"]))
+    for l in lines:
+        w = l.split()
+        if w[0] in ("G", "P", "K", "D", "R"):
+            out.append(l)
+        elif w[0] == "T":
+            out.append(l if len(w) == 5 else "%s %d" % (l, cfg["edges"][int(w[2])]["dst"]))
+    out.append("END")
+    return "\n".join(out) + "\n"
+
+
+def run_monitor(cfgs, outputs):
+    res = common.run_driver("".join(monitor_text(c, o) for c, o in zip(cfgs, outputs)))
+    return [r[0] if r else "NONE" for r in res]
